@@ -268,7 +268,8 @@ type vWorld struct {
 	// histories: a round after the first one on the same handler (op `again`: the handler
 	// configuration cimd/pre/dcr/init is the one of the case's `auth` record)
 	again     bool
-	round     int  // 0-based index of the round in its case
+	begin     bool // op `begin`: as `again`, but the call is left in flight (finished by a later `end <k>`)
+	round     int  // 0-based number of the attempt in its case (start order)
 	asChanged bool // this round asks another authorization server for metadata than the last round that got that far
 	afterOK   bool // an earlier round of the case installed a token source
 }
@@ -377,7 +378,11 @@ func (w *vWorld) encode() string {
 		f = "R|" + w.fState + "|" + w.fIss.tok()
 	}
 	if w.again {
-		return fmt.Sprintf("again st=%d u=%s hm=%s ch=%s hdr=%s prm=%s asm=%s reg=%s tok=%s f=%s sty=%d",
+		kw := "again"
+		if w.begin {
+			kw = "begin"
+		}
+		return fmt.Sprintf(kw+" st=%d u=%s hm=%s ch=%s hdr=%s prm=%s asm=%s reg=%s tok=%s f=%s sty=%d",
 			w.status, w.u.tok(), bit(w.hm), ch, hdr,
 			w.encodeMap("prm", w.prm), w.encodeMap("asm", w.asm), w.encodeMap("reg", w.reg), tok, f, w.sty)
 	}
@@ -422,7 +427,7 @@ func decodeResp(kind, s string) (vResp, error) {
 
 func decodeWorld(op string) (*vWorld, error) {
 	toks := strings.Fields(op)
-	if len(toks) == 0 || (toks[0] != "auth" && toks[0] != "again") {
+	if len(toks) == 0 || (toks[0] != "auth" && toks[0] != "again" && toks[0] != "begin") {
 		return nil, fmt.Errorf("not an auth op")
 	}
 	kv := map[string]string{}
@@ -435,7 +440,8 @@ func decodeWorld(op string) (*vWorld, error) {
 	}
 	w := &vWorld{prm: map[string]vResp{}, asm: map[string]vResp{}, reg: map[string]vResp{}, tok: map[string][]string{}, order: map[string][]string{}}
 	var err error
-	w.again = toks[0] == "again"
+	w.again = toks[0] == "again" || toks[0] == "begin"
+	w.begin = toks[0] == "begin"
 	w.status, _ = strconv.Atoi(kv["st"])
 	w.cimd, w.dcr, w.init, w.hm = kv["cimd"] == "1", kv["dcr"] == "1", kv["init"] == "1", kv["hm"] == "1"
 	if !w.again && kv["pre"] != "none" {
@@ -885,21 +891,33 @@ func (r *vRun) RoundTrip(req *http.Request) (*http.Response, error) {
 
 var vFetchErr = errors.New("scripted fetcher error")
 
-func (r *vRun) fetcher(ctx context.Context, args *AuthorizationArgs) (*AuthorizationResult, error) {
+// fetcher is the AuthorizationCodeFetcher of one attempt: it records the authorization URL, parks until
+// the harness lets the attempt go on (`end`), and answers as the world says. stateOf resolves the state
+// generated for another attempt of the handler ("" if that attempt never reached its fetcher).
+func (r *vRun) fetcher(ctx context.Context, args *AuthorizationArgs, park func(state string), stateOf func(k int) string) (*AuthorizationResult, error) {
 	ep, q, _ := strings.Cut(args.URL, "?")
 	vals, _ := url.ParseQuery(q)
 	r.events = append(r.events, "F:"+r.classify(ep)+":"+credOf(vals.Get("client_id"))+":"+r.classify(vals.Get("resource")))
+	park(vals.Get("state"))
 	if r.w.fetch != "R" {
 		return nil, vFetchErr
 	}
 	res := &AuthorizationResult{Code: "code-1", Iss: r.w.fIss.render(false)}
-	switch r.w.fState {
-	case "g":
+	switch {
+	case r.w.fState == "g":
 		res.State = vals.Get("state")
-	case "f":
+	case r.w.fState == "f":
 		res.State = "forged" + vals.Get("state")
-	case "e":
+	case r.w.fState == "e":
 		res.State = ""
+	case strings.HasPrefix(r.w.fState, "s"):
+		// the state generated for attempt k of this handler (in flight, finished, or this one)
+		k, err := strconv.Atoi(r.w.fState[1:])
+		if st := stateOf(k); err == nil && st != "" {
+			res.State = st
+		} else {
+			res.State = "state-of-nobody-" + r.w.fState[1:]
+		}
 	}
 	return res, nil
 }
@@ -955,17 +973,44 @@ func classifyErr(err error) string {
 	return "other:" + hxs(s)
 }
 
-// vHandler is ONE AuthorizationCodeHandler and what the harness remembers of its rounds. The injected
+// vHandler is ONE AuthorizationCodeHandler and what the harness remembers of its attempts. The injected
 // http.Client and fetcher are fixed when the handler is created; they delegate to the scripted world
-// of the round in progress.
+// of the attempt the request belongs to (the attempt travels in the context given to Authorize).
 type vHandler struct {
-	h       *AuthorizationCodeHandler
-	cfgW    *vWorld // the world of the `auth` record: the handler configuration
-	initial oauth2.TokenSource
-	seen    []oauth2.TokenSource // seen[k]: what TokenSource() returned after round k
-	cur     *vRun
-	lastAS  string // the authorization server the last round that reached one asked for metadata
+	h         *AuthorizationCodeHandler
+	cfgW      *vWorld // the world of the `auth` record: the handler configuration
+	initial   oauth2.TokenSource
+	att       []*vAttempt // every Authorize call of the case, in start order
+	installed []vInstalled
+	cur       *vRun
+	lastAS    string // the authorization server the last round that reached one asked for metadata
 }
+
+type vInstalled struct {
+	ts oauth2.TokenSource
+	k  int // the attempt during whose finish this source first appeared
+}
+
+// vAttempt is one Authorize call: it runs in its own goroutine, parks in the fetcher, and goes on when
+// the harness says so. All hand-overs are by channel: no timing.
+type vAttempt struct {
+	k        int
+	w        *vWorld
+	run      *vRun
+	parked   chan string   // fetcher -> harness: the state generated for this attempt
+	release  chan struct{} // harness -> fetcher
+	done     chan struct{}
+	state    string
+	isParked bool
+	ended    bool // its `end` record was printed
+	before   oauth2.TokenSource
+	err      error
+	panicked bool
+	obs      string // set when the attempt could not be started
+	inst     string // "" until the call has returned: did TokenSource() change while it finished
+}
+
+type vAttKey struct{}
 
 // contactedAS returns the token of the authorization-server URL whose metadata locations the
 // observation's log asks for ("" if the round did not get that far).
@@ -996,11 +1041,26 @@ func contactedAS(obs string) string {
 }
 
 func (hs *vHandler) RoundTrip(req *http.Request) (*http.Response, error) {
-	return hs.cur.RoundTrip(req)
+	if a, ok := req.Context().Value(vAttKey{}).(*vAttempt); ok {
+		return a.run.RoundTrip(req)
+	}
+	return hs.cur.RoundTrip(req) // a request that lost its context: booked on the attempt started last
 }
 
 func (hs *vHandler) fetcher(ctx context.Context, args *AuthorizationArgs) (*AuthorizationResult, error) {
-	return hs.cur.fetcher(ctx, args)
+	a, ok := ctx.Value(vAttKey{}).(*vAttempt)
+	if !ok {
+		return nil, errors.New("fetcher called without the attempt's context")
+	}
+	return a.run.fetcher(ctx, args, func(st string) {
+		a.parked <- st
+		<-a.release
+	}, func(k int) string {
+		if k < 0 || k >= len(hs.att) {
+			return ""
+		}
+		return hs.att[k].state
+	})
 }
 
 // newHandler creates the handler an `auth` record describes.
@@ -1043,54 +1103,118 @@ func newHandler(w *vWorld) (hs *vHandler, obs string) {
 	return hs, ""
 }
 
-// round runs one Authorize call of the handler against the world w.
-func (hs *vHandler) round(w *vWorld) (obs string) {
+// begin starts one Authorize call of the handler against the world w and returns when it is parked in
+// the fetcher ("parked") or has ended ("done").
+func (hs *vHandler) begin(w *vWorld) (a *vAttempt, obs string) {
 	if w.again {
 		c := hs.cfgW
 		w.cimd, w.pre, w.dcr, w.init = c.cimd, c.pre, c.dcr, c.init
 	}
-	w.round = len(hs.seen)
+	w.round = len(hs.att)
 	r := &vRun{w: w, upper: w.sty%5 == 1} // mixed-case schemes only in fields that are not compared as strings
 	r.addAll()
 	hs.cur = r
-	defer func() {
-		if p := recover(); p != nil {
-			obs = "panic"
-		}
-	}()
-	req, err := http.NewRequest(http.MethodPost, w.u.render(false), nil)
+	a = &vAttempt{k: len(hs.att), w: w, run: r, parked: make(chan string), release: make(chan struct{}), done: make(chan struct{})}
+	hs.att = append(hs.att, a)
+	ctx := context.WithValue(context.Background(), vAttKey{}, a)
+	req, err := http.NewRequestWithContext(ctx, http.MethodPost, w.u.render(false), nil)
 	if err != nil {
-		return "badurl"
+		a.obs = "badurl"
+		close(a.done)
+		return a, "done"
 	}
 	hd := http.Header{}
 	for _, v := range w.hdr {
 		hd.Add("WWW-Authenticate", v)
 	}
-	before, _ := hs.h.TokenSource(context.Background())
+	a.before, _ = hs.h.TokenSource(context.Background())
 	resp := &http.Response{StatusCode: w.status, Header: hd, Body: io.NopCloser(strings.NewReader("")), Request: req}
-	err = hs.h.Authorize(context.Background(), req, resp)
-	ts, _ := hs.h.TokenSource(context.Background())
-	inst := "0"
-	if ts != before {
-		inst = "1"
-	}
-	cur := strconv.Itoa(len(hs.seen))
-	if ts == hs.initial {
-		cur = "i"
-	} else {
-		for k, x := range hs.seen {
-			if x == ts {
-				cur = strconv.Itoa(k)
-				break
+	go func() {
+		defer close(a.done)
+		defer func() {
+			if p := recover(); p != nil {
+				a.panicked = true
 			}
+		}()
+		a.err = hs.h.Authorize(ctx, req, resp)
+	}()
+	select {
+	case a.state = <-a.parked:
+		a.isParked = true
+		return a, "parked"
+	case <-a.done:
+		hs.observe(a) // books `inst` now: the call has returned; what is served is read again at its `end` record
+		return a, "done"
+	}
+}
+
+// observe prints what attempt a did, once it has returned.
+func (hs *vHandler) observe(a *vAttempt) string {
+	if a.panicked {
+		return "panic"
+	}
+	ts, _ := hs.h.TokenSource(context.Background())
+	if a.inst == "" {
+		a.inst = "0"
+		if ts != a.before {
+			a.inst = "1"
 		}
 	}
-	hs.seen = append(hs.seen, ts)
-	lg := "."
-	if len(r.events) > 0 {
-		lg = strings.Join(r.events, ",")
+	inst := a.inst
+	cur, found := "i", false
+	for _, x := range hs.installed {
+		if x.ts == ts {
+			cur, found = strconv.Itoa(x.k), true
+			break
+		}
 	}
-	return "out=" + classifyErr(err) + " inst=" + inst + " cur=" + cur + " log=" + lg
+	if !found && ts != hs.initial {
+		// a source not seen before: it appeared while this attempt finished
+		hs.installed = append(hs.installed, vInstalled{ts, a.k})
+		cur = strconv.Itoa(a.k)
+	}
+	lg := "."
+	if len(a.run.events) > 0 {
+		lg = strings.Join(a.run.events, ",")
+	}
+	return "out=" + classifyErr(a.err) + " inst=" + inst + " cur=" + cur + " log=" + lg
+}
+
+// end lets attempt k return from the fetcher and waits until its Authorize call has returned.
+func (hs *vHandler) end(k int) (a *vAttempt, obs string) {
+	if k < 0 || k >= len(hs.att) || hs.att[k].ended {
+		return nil, "no-such-attempt"
+	}
+	a = hs.att[k]
+	a.ended = true
+	if a.obs != "" {
+		return a, a.obs
+	}
+	if a.isParked {
+		a.before, _ = hs.h.TokenSource(context.Background())
+		close(a.release)
+		<-a.done
+	}
+	return a, hs.observe(a)
+}
+
+// abandon ends every attempt still in flight (a case must not leave goroutines behind).
+func (hs *vHandler) abandon() {
+	if hs == nil {
+		return
+	}
+	for k := range hs.att {
+		if !hs.att[k].ended {
+			hs.end(k)
+		}
+	}
+}
+
+// round runs one Authorize call of the handler against the world w from start to end.
+func (hs *vHandler) round(w *vWorld) (obs string) {
+	a, _ := hs.begin(w)
+	_, obs = hs.end(a.k)
+	return obs
 }
 
 // ---------------------------------------------------------------------------------------------
@@ -1677,7 +1801,19 @@ func flowTags(w *vWorld, obs string) []string {
 	if w.hm {
 		tags = append(tags, "malformed-header")
 	}
-	if w.fetch == "R" && w.fState != "g" {
+	if w.fetch == "R" && strings.HasPrefix(w.fState, "s") {
+		switch k, _ := strconv.Atoi(w.fState[1:]); {
+		case k == w.round:
+			tags = append(tags, "own-state-by-number")
+		case k < w.round:
+			tags = append(tags, "state-of-earlier-attempt")
+		default:
+			tags = append(tags, "state-of-later-attempt")
+		}
+		if strings.Contains(obs, "T:") {
+			tags = append(tags, "exchanged-on-numbered-state")
+		}
+	} else if w.fetch == "R" && w.fState != "g" {
 		tags = append(tags, "forged-state")
 	}
 	if w.init {
@@ -1725,11 +1861,18 @@ func readOpsFile(p string) ([]string, error) {
 
 func runOps(out *verifOut, cs string, ops []string, tag string) {
 	out.line(cs, "reset", "ok", "reset")
-	var hs *vHandler // the handler of the case: created by `auth`, used again by `again`
+	var hs *vHandler // the handler of the case: created by `auth`, used again by `again` / `begin` / `end`
+	defer func() { hs.abandon() }()
+	book := func(w *vWorld, obs string) {
+		if as := contactedAS(obs); as != "" {
+			w.asChanged = hs.lastAS != "" && hs.lastAS != as
+			hs.lastAS = as
+		}
+	}
 	for _, op := range ops {
 		switch {
 		case op == "reset":
-		case strings.HasPrefix(op, "auth ") || strings.HasPrefix(op, "again "):
+		case strings.HasPrefix(op, "auth ") || strings.HasPrefix(op, "again ") || strings.HasPrefix(op, "begin "):
 			w, err := decodeWorld(op)
 			if err != nil {
 				out.line(cs, op, "bad-op", tag)
@@ -1737,22 +1880,50 @@ func runOps(out *verifOut, cs string, ops []string, tag string) {
 			}
 			var obs string
 			if !w.again {
+				hs.abandon()
 				hs, obs = newHandler(w)
 			} else if hs == nil {
 				obs = "no-handler"
 			}
-			if obs == "" {
-				w.afterOK = false
-				for _, x := range hs.seen {
-					w.afterOK = w.afterOK || x != hs.initial
-				}
-				obs = hs.round(w)
-				if as := contactedAS(obs); as != "" {
-					w.asChanged = hs.lastAS != "" && hs.lastAS != as
-					hs.lastAS = as
+			if obs != "" {
+				out.line(cs, op, obs, append(flowTags(w, obs), tag)...)
+				continue
+			}
+			w.afterOK = len(hs.installed) > 0
+			if w.begin {
+				_, obs = hs.begin(w)
+				out.line(cs, op, obs, tag, "begin", "begin-"+obs)
+				continue
+			}
+			obs = hs.round(w)
+			book(w, obs)
+			out.line(cs, op, obs, append(flowTags(w, obs), tag)...)
+		case strings.HasPrefix(op, "end "):
+			k, err := strconv.Atoi(strings.TrimSpace(op[4:]))
+			if err != nil || hs == nil {
+				out.line(cs, op, "bad-op", tag)
+				continue
+			}
+			inFlight := 0
+			for _, x := range hs.att {
+				if !x.ended && x.isParked {
+					inFlight++
 				}
 			}
-			out.line(cs, op, obs, append(flowTags(w, obs), tag)...)
+			a, obs := hs.end(k)
+			if a == nil {
+				out.line(cs, op, obs, tag)
+				continue
+			}
+			book(a.w, obs)
+			tags := append(flowTags(a.w, obs), tag, "end")
+			if a.isParked && inFlight > 1 {
+				tags = append(tags, fmt.Sprintf("in-flight=%d", inFlight))
+				if strings.Contains(obs, "inst=1") {
+					tags = append(tags, "installed-while-others-in-flight")
+				}
+			}
+			out.line(cs, op, obs, tags...)
 		case strings.HasPrefix(op, "www ") || op == "www":
 			out.line(cs, op, wwwRun(strings.Fields(op)[1:]), tag, "www")
 		case strings.HasPrefix(op, "wwwfuzz "):
@@ -1818,7 +1989,7 @@ func TestVerifOAuthFlow(t *testing.T) {
 			out.line("pool", "reset", "bad-pool-parses:"+hxs(s), "reset")
 		}
 	}
-	if runCorpusAndReplay(out, "auth ", "again ") {
+	if runCorpusAndReplay(out, "auth ", "again ", "begin ", "end ") {
 		return
 	}
 	n := verifN(10000, 60000)
@@ -1828,14 +1999,40 @@ func TestVerifOAuthFlow(t *testing.T) {
 		// authorization server named, every document and the fetcher's answer may change in between)
 		g := &vGen{rng: rng}
 		rounds := []int{1, 1, 1, 1, 1, 1, 1, 1, 1, 1, 1, 2, 2, 2, 2, 2, 2, 3, 3, 4}[rng.Intn(20)]
+		// attempts IN FLIGHT TOGETHER (1 history in 6): after 0-1 sequential rounds, 2-3 further Authorize calls are
+		// started (`begin`) before any of them is finished, then finished (`end`) in a random order, possibly with one
+		// more sequential round in between; the fetcher of such an attempt is answered with its own state, with the
+		// state generated for ANOTHER attempt of the handler (in flight or finished: `s<k>`), or a forged / empty one.
+		conc := 0
+		if rng.Intn(6) == 0 {
+			conc = 2 + rng.Intn(2)
+			rounds = 1 + rng.Intn(2) + conc
+		}
 		var ops []string
+		var open []int
 		bad := false
+		flush := func() {
+			rng.Shuffle(len(open), func(a, b int) { open[a], open[b] = open[b], open[a] })
+			for _, k := range open {
+				ops = append(ops, fmt.Sprintf("end %d", k))
+			}
+			open = nil
+		}
 		for k := 0; k < rounds && !bad; k++ {
-			g.honest = rounds > 1 && g.p(map[bool]int{true: 65, false: 50}[k == 0])
+			g.honest = (rounds > 1 && g.p(map[bool]int{true: 65, false: 50}[k == 0])) || (conc > 0 && g.p(60))
 			w := g.world()
 			w.again = k > 0
+			w.begin = conc > 0 && k >= rounds-conc
 			if k == 0 {
 				g.base = w
+			}
+			if w.fetch == "R" && k > 0 {
+				switch {
+				case w.begin && g.p(45):
+					w.fState = fmt.Sprintf("s%d", rounds-conc+rng.Intn(conc)) // one of the attempts in flight together (may be this one)
+				case w.begin && g.p(10), !w.begin && g.p(4):
+					w.fState = fmt.Sprintf("s%d", rng.Intn(rounds)) // any attempt of the history: earlier, this, later
+				}
 			}
 			op := w.encode()
 			// always run what a replay would run
@@ -1844,7 +2041,17 @@ func TestVerifOAuthFlow(t *testing.T) {
 				bad = true
 			}
 			ops = append(ops, op)
+			if w.begin {
+				open = append(open, k)
+				if len(open) >= 2 && g.p(15) {
+					// finish one of them while the others stay in flight, before the next one starts
+					j := rng.Intn(len(open))
+					ops = append(ops, fmt.Sprintf("end %d", open[j]))
+					open = append(open[:j], open[j+1:]...)
+				}
+			}
 		}
+		flush()
 		if !bad {
 			runOps(out, fmt.Sprintf("f%d", i), ops, "gen")
 		}
